@@ -1,1 +1,5 @@
+import PyrexVerif.D.Detector
+import PyrexVerif.F.Ice
+import PyrexVerif.Props.C19
+import PyrexVerif.R.Ice
 import PyrexVerif.Util.Proto
